@@ -738,3 +738,10 @@ MUTATIONS += [
     # the key file is stored under the id of the master key bytes' hash... of something else than its content
     dict(id="C04-key-file-id-not-its-hash", prop="C04", file=KC13, old="    let id = KeyId::from(hash(&data));\n\n    repo.be", new="    let id = KeyId::default();\n\n    repo.be"),
 ]
+
+MUTATIONS += [
+    # the late filter of the packer thread drops processing errors (a failed compression/encryption is silently skipped)
+    dict(id="C07-late-filter-drops-errors", prop="C07", file=PKR13, old="                            .map_or_else(|_| true, |(_, id, _, _)| !indexer.read().unwrap().has(blob_type, id))", new="                            .map_or_else(|_| false, |(_, id, _, _)| !indexer.read().unwrap().has(blob_type, id))"),
+    # the open-pack filter is inverted: only blobs that are already in the open pack get through
+    dict(id="C07-open-pack-filter-inverted", prop="C07", file=PKR13, old="                    .filter(|(_, id)| !raw_packer.read().unwrap().has(id))", new="                    .filter(|(_, id)| raw_packer.read().unwrap().has(id))"),
+]
